@@ -127,6 +127,14 @@ pub(super) fn compile_with_plan(input: Plan, with: &crate::ast::WithClause) -> R
         }
     }
 
+    // DISTINCT belongs to the projection: duplicates go before ORDER BY, SKIP and LIMIT
+    // (filtering on projected columns commutes with it).
+    if with.distinct {
+        plan = Plan::Distinct {
+            input: Box::new(plan),
+        };
+    }
+
     if let Some(order_by) = &with.order_by {
         let rewrite_bindings: Vec<(Expression, String)> = with
             .items
@@ -210,12 +218,6 @@ pub(super) fn compile_with_plan(input: Plan, with: &crate::ast::WithClause) -> R
         };
     }
 
-    if with.distinct {
-        plan = Plan::Distinct {
-            input: Box::new(plan),
-        };
-    }
-
     Ok(plan)
 }
 
@@ -231,6 +233,13 @@ pub(super) fn compile_return_plan(
     extract_output_var_kinds(&input, &mut input_bindings);
 
     let (mut plan, project_cols) = compile_projection_aggregation(input, &ret.items, false)?;
+
+    // DISTINCT belongs to the projection: duplicates go before ORDER BY, SKIP and LIMIT.
+    if ret.distinct {
+        plan = Plan::Distinct {
+            input: Box::new(plan),
+        };
+    }
 
     if let Some(order_by) = &ret.order_by {
         let rewrite_bindings: Vec<(Expression, String)> = ret
@@ -312,12 +321,6 @@ pub(super) fn compile_return_plan(
         plan = Plan::Limit {
             input: Box::new(plan),
             limit: limit.clone(),
-        };
-    }
-
-    if ret.distinct {
-        plan = Plan::Distinct {
-            input: Box::new(plan),
         };
     }
 
